@@ -1,6 +1,7 @@
 package decmon
 
 import (
+	"math/big"
 	"math/rand"
 	"strconv"
 	"strings"
@@ -166,6 +167,34 @@ func genString(rng *rand.Rand, fromPool string) string {
 	return genNumeral(rng)
 }
 
+// machine-word stratum: coefficients at and around the limits of 32/63/64-bit words and of the largest
+// powers of ten that fit in them, with scales that put the VALUE next to small integers (where a
+// truncation, a comparison or a fast path for "small" numbers would show a wrong digit).
+var wordCoefs = []string{"9223372036854775807", "9223372036854775808", "18446744073709551615", "18446744073709551616",
+	"10000000000000000000", "9999999999999999999", "1000000000000000000", "999999999999999999", "4294967295", "4294967296",
+	"2147483647", "2147483648", "36893488147419103232", "340282366920938463463374607431768211455"}
+
+func genWordNumeral(rng *rand.Rand) (string, int) {
+	var c *big.Int
+	switch rng.Intn(4) {
+	case 0: // a 20-digit coefficient that still fits in 64 bits
+		c = new(big.Int).SetUint64(10000000000000000000 + rng.Uint64()%8446744073709551615)
+	case 1: // just below / above a boundary
+		c, _ = new(big.Int).SetString(wordCoefs[rng.Intn(len(wordCoefs))], 10)
+		c.Add(c, big.NewInt(int64(rng.Intn(7)-3)))
+		if c.Sign() < 0 {
+			c.Neg(c)
+		}
+	case 2: // a random 63..64-bit value
+		c = new(big.Int).SetUint64(rng.Uint64() | 1<<62)
+	default:
+		c, _ = new(big.Int).SetString(wordCoefs[rng.Intn(len(wordCoefs))], 10)
+	}
+	d := c.String()
+	exps := []int{-(len(d) - 1), -len(d), -(len(d) - 2), -(len(d) + 1), -19, -18, -20, -6, -1, 0, 1}
+	return d, exps[rng.Intn(len(exps))]
+}
+
 func genNumeral(rng *rand.Rand) string {
 	n := digitBoundaries[rng.Intn(len(digitBoundaries))]
 	if rng.Intn(3) == 0 {
@@ -173,6 +202,9 @@ func genNumeral(rng *rand.Rand) string {
 	}
 	digits := genDigits(rng, n)
 	exp := genExp(rng)
+	if rng.Intn(7) == 0 {
+		digits, exp = genWordNumeral(rng)
+	}
 	sign := genSign(rng)
 	var s string
 	if rng.Intn(5) < 2 {
